@@ -43,3 +43,14 @@ Theorem C02_apparent_capacity_is_enthalpy_derivative_partial :
   is_derive (enthalpy Dh kf Ms ms m cp Tm) T (cp * BETA Dh kf Ms ms m cp Tm T).
 Proof. intros. apply apparent_capacity_is_enthalpy_derivative; assumption. Qed.
 Print Assumptions C02_apparent_capacity_is_enthalpy_derivative_partial.
+
+(* the full statement (exact balance at every step) is FALSE of the faithful model in the solidification stage: with insulated
+   boundaries (K = 0, q_e = 0), unit heat capacity and no latent heat (Dh = 0), a field with a conductivity jump gains 3/4 units
+   of heat in one step.  This is why the solidification-stage clause of C02 is an audit "within a few percent" and not a theorem. *)
+From Snow Require Import SnSolidMax.
+Theorem C02_solid_step_exact_balance_refuted :
+  exists (P : @p1d R) (T W : list R),
+  q_K P = 0 /\ (forall w, cp_of Rops P w = 1) /\ (forall b w, BETA_of Rops P b w = 1)
+  /\ lsum (fst (solid_step Rops P T W 0 0)) - lsum T <> 0.
+Proof. exact solid_step_exact_balance_refuted. Qed.
+Print Assumptions C02_solid_step_exact_balance_refuted.
